@@ -67,6 +67,10 @@ type node struct {
 	imgAppended int64
 }
 
+// the segment size of every WAL the harness opens (a WAL directory must be reopened with the size it was written
+// with); the trim leg lowers it for the duration of a case so that the log consists of several segments
+var walSegmentSize int32 = 256 * 1024
+
 var curFS vfs.FS
 
 // setFS selects the filesystem of the Pebble instances opened from now on (nil: the code's own choice);
@@ -113,7 +117,7 @@ func newNode(st surv, crashAt int64, mode string, cutPct int, gated bool) *node 
 		}
 	}
 	n.walf = &walFactory{
-		real: wal.NewWalFactory(&wal.FactoryOptions{BaseWalDir: n.walDir, Retention: time.Hour, SegmentSize: 256 * 1024, SyncData: true}),
+		real: wal.NewWalFactory(&wal.FactoryOptions{BaseWalDir: n.walDir, Retention: time.Hour, SegmentSize: walSegmentSize, SyncData: true}),
 		c:    n.clk, g: n.g,
 	}
 	return n
@@ -201,7 +205,7 @@ func (n *node) survivingState0() (*vfs.MemFS, string, int64) {
 	}
 	// rebuild a WAL that holds exactly the entries up to k
 	d := newDir("walcut")
-	f := wal.NewWalFactory(&wal.FactoryOptions{BaseWalDir: d, Retention: time.Hour, SegmentSize: 256 * 1024, SyncData: true})
+	f := wal.NewWalFactory(&wal.FactoryOptions{BaseWalDir: d, Retention: time.Hour, SegmentSize: walSegmentSize, SyncData: true})
 	w, err := f.NewWal(ns, shardId, nil)
 	must(err)
 	for _, e := range entries {
@@ -215,7 +219,7 @@ func (n *node) survivingState0() (*vfs.MemFS, string, int64) {
 }
 
 func readWalDir(dir string) []*proto.LogEntry {
-	f := wal.NewWalFactory(&wal.FactoryOptions{BaseWalDir: dir, Retention: time.Hour, SegmentSize: 256 * 1024, SyncData: true})
+	f := wal.NewWalFactory(&wal.FactoryOptions{BaseWalDir: dir, Retention: time.Hour, SegmentSize: walSegmentSize, SyncData: true})
 	w, err := f.NewWal(ns, shardId, nil)
 	must(err)
 	defer w.Close()
